@@ -9,12 +9,62 @@ use crate::rng::Rng;
 use crate::trisim::guarded;
 use crate::vals::{enc, st_mask};
 use crate::wellformed::check_context;
-use ciphercore_base::custom_ops::{CustomOperation, Not, Or};
+use ciphercore_base::custom_ops::{CustomOperation, CustomOperationBody, Not, Or};
 use ciphercore_base::data_types::{array_type, scalar_type, tuple_type, vector_type, Type, BIT, INT32, UINT64, UINT8};
 use ciphercore_base::graphs::{create_context, Context, Graph, GraphAnnotation, Node, NodeAnnotation, Operation};
 use ciphercore_base::ops::comparisons::{Equal, GreaterThan};
 use serde::{Deserialize, Serialize};
 use std::collections::{BTreeMap, BTreeSet};
+
+/// A user-defined custom operation (the trait is public; users register their own). Mode 0 is a correct identity
+/// operation; the other modes are operations whose instantiation is rejected at different points of the add-node
+/// path: 1 returns a graph it forgot to finalize (rejected late, after the result type is known), 2 returns an
+/// error, 3 panics, 4 sets no output node, 5 leaves a second, unfinalized graph in the instantiation context.
+#[derive(Debug, Serialize, Deserialize, Eq, PartialEq, Hash)]
+pub struct SimUserOp {
+    pub mode: u64,
+}
+
+#[typetag::serde]
+impl CustomOperationBody for SimUserOp {
+    fn instantiate(&self, context: Context, arguments_types: Vec<Type>) -> ciphercore_base::errors::Result<Graph> {
+        let g = context.create_graph()?;
+        let mut ins = vec![];
+        for t in &arguments_types {
+            ins.push(g.input(t.clone())?);
+        }
+        if self.mode == 2 || ins.is_empty() {
+            g.input(scalar_type(BIT))?.add(g.input(scalar_type(UINT8))?)?;
+        }
+        if self.mode == 3 {
+            panic!("user operation panics");
+        }
+        if self.mode != 4 {
+            g.set_output_node(ins[0].clone())?;
+        }
+        if self.mode == 5 {
+            let g2 = context.create_graph()?;
+            g2.input(scalar_type(BIT))?;
+        }
+        if self.mode != 1 && self.mode != 4 {
+            g.finalize()?;
+        }
+        Ok(g)
+    }
+    fn get_name(&self) -> String {
+        format!("SimUserOp({})", self.mode)
+    }
+}
+
+fn user_op_mode(op: &Operation) -> Option<u64> {
+    if let Operation::Custom(co) = op {
+        let n = co.get_name();
+        if let Some(r) = n.strip_prefix("SimUserOp(") {
+            return r.trim_end_matches(')').parse().ok();
+        }
+    }
+    None
+}
 
 #[derive(Clone, Debug, Serialize, Deserialize)]
 pub enum ACall {
@@ -108,6 +158,7 @@ pub struct ApiStats {
     pub by_kind: BTreeMap<String, u64>,
     pub cross_graph_args: u64,
     pub cross_context_args: u64,
+    pub retries_after_failure: u64,
 }
 
 /// `None` if a referenced handle does not exist (the call is skipped: its producer failed or was removed).
@@ -145,10 +196,13 @@ fn must_fail(w: &World, c: &ACall) -> Option<&'static str> {
                 return Some("create_graph in a finalized context");
             }
         }
-        ACall::AddNode { graph, deps, gdeps, .. } => {
+        ACall::AddNode { graph, deps, gdeps, op } => {
             let g = &w.mgraph[graph];
             if g.finalized {
                 return Some("add_node to a finalized graph");
+            }
+            if matches!(user_op_mode(op), Some(m) if m != 0) {
+                return Some("custom operation whose instantiation is rejected");
             }
             for d in deps {
                 let (dg, _) = &w.nodes[d];
@@ -478,6 +532,28 @@ fn step(w: &mut World, idx: usize, c: &ACall, st: &mut ApiStats) -> Option<(Stri
             if after != before {
                 return Some(("failed-call-changed-state".into(), format!("call {} ({}) returned Err ({}) but the serialised context changed", idx, kind(c), e)));
             }
+            // a rejected call left nothing behind, so the same call is rejected again (state that serialisation does
+            // not show - caches, counters - must not make the repetition succeed)
+            if idx % 2 == 0 || user_op_mode(match c { ACall::AddNode { op, .. } => op, _ => &Operation::NOP }).is_some() {
+                st.retries_after_failure += 1;
+                let ctxs = w.ctxs.clone();
+                let graphs = w.graphs.clone();
+                let nodes = w.nodes.clone();
+                match guarded(|| exec_call(c, &|i| ctxs[i].clone(), &|h| graphs[&h].clone(), &|h| nodes[&h].1.clone())) {
+                    Err(p) => return Some(("panic".into(), format!("call {} ({}) panicked when repeated after its rejection: {}", idx, kind(c), p))),
+                    Ok(Ok(_)) => {
+                        return Some((
+                            "ghost-state".into(),
+                            format!("call {} ({}) was rejected ({}) and left the serialised context unchanged, yet the same call repeated at once returns Ok", idx, kind(c), e),
+                        ))
+                    }
+                    Ok(Err(_)) => {}
+                }
+                match guarded(|| w.snapshot()) {
+                    Ok(Ok(s)) if s == before => {}
+                    _ => return Some(("failed-call-changed-state".into(), format!("call {} ({}) repeated after its rejection changed the serialised context", idx, kind(c)))),
+                }
+            }
         }
         Ok(out) => {
             st.ok += 1;
@@ -640,7 +716,8 @@ fn gen_call(w: &World, rng: &mut Rng, idx: usize, st: &mut ApiStats, fuzzing: bo
                         None => return ACall::AddNode { graph: g, op: Operation::Input(small_type(rng)), deps: vec![], gdeps: vec![] },
                     };
                     let b = pick_node(rng, st).unwrap_or(a);
-                    let (co, deps) = match rng.below(4) {
+                    let (co, deps) = match rng.below(6) {
+                        4 | 5 => (CustomOperation::new(SimUserOp { mode: *rng.pick(&[0u64, 0, 1, 1, 2, 3, 4, 5]) }), if rng.chance(1, 8) { vec![] } else { vec![a] }),
                         0 => (CustomOperation::new(Not {}), vec![a]),
                         1 => (CustomOperation::new(Or {}), vec![a, b]),
                         2 => (CustomOperation::new(Equal {}), vec![a, b]),
@@ -747,7 +824,46 @@ pub fn gen_and_run(rng: &mut Rng, fuzzing: bool, st: &mut ApiStats) -> (ApiHisto
             idx += 1;
         }
     }
-    // every mutator against (possibly) finalized objects
+    // every mutator against (possibly) finalized objects: a systematic battery on a few nodes and graphs (named and
+    // annotated nodes first: a mutator may guard only the path taken for a fresh node), then random calls
+    {
+        let mut battery: Vec<ACall> = vec![];
+        let mut ns: Vec<usize> = w.nodes.keys().cloned().collect();
+        ns.sort_by_key(|n| {
+            let nd = &w.nodes[n].1;
+            let decorated = nd.get_name().ok().flatten().is_some() as u8 + 2 * (!nd.get_annotations().unwrap_or_default().is_empty()) as u8;
+            (3 - decorated, rng_key(*n))
+        });
+        for n in ns.iter().take(4) {
+            battery.push(ACall::AnnotateNode { node: *n, a: NodeAnnotation::Send(rng.below(3), rng.below(3)) });
+            battery.push(ACall::SetNodeName { node: *n, name: format!("n{}", rng.below(8)) });
+        }
+        let gs: Vec<usize> = w.graphs.keys().cloned().collect();
+        for _ in 0..2.min(gs.len()) {
+            let g = *rng.pick(&gs);
+            battery.push(ACall::AnnotateGraph { graph: g, a: GraphAnnotation::AssociativeOperation });
+            battery.push(ACall::SetGraphName { graph: g, name: format!("g{}", rng.below(6)) });
+            battery.push(ACall::AddNode { graph: g, op: Operation::Input(scalar_type(UINT8)), deps: vec![], gdeps: vec![] });
+            if let Some(n) = ns.iter().find(|n| w.nodes[*n].0 == g) {
+                battery.push(ACall::SetOutput { graph: g, node: *n });
+            }
+            battery.push(ACall::FinalizeGraph { graph: g });
+        }
+        for ci in 0..contexts {
+            battery.push(ACall::CreateGraph { ctx: ci });
+            if let Some(g) = gs.iter().find(|g| w.mgraph[*g].ctx == ci) {
+                battery.push(ACall::SetMain { ctx: ci, graph: *g });
+            }
+            battery.push(ACall::FinalizeContext { ctx: ci });
+        }
+        for c in battery {
+            calls.push(c.clone());
+            if let Some((class, detail)) = step(&mut w, idx, &c, st) {
+                return (ApiHistory { contexts, clients, calls }, Some((idx, class, detail)));
+            }
+            idx += 1;
+        }
+    }
     for _ in 0..12 {
         let c = gen_call(&w, rng, idx, st, fuzzing);
         calls.push(c.clone());
@@ -863,6 +979,7 @@ pub fn run_c11(args: &Args) -> i32 {
         tot.ok += s.ok;
         tot.failed += s.failed;
         tot.mandatory_failures += s.mandatory_failures;
+        tot.retries_after_failure += s.retries_after_failure;
         tot.rollback_after_type_error += s.rollback_after_type_error;
         tot.rollback_after_size_limit += s.rollback_after_size_limit;
         tot.twin_checks += s.twin_checks;
@@ -919,6 +1036,7 @@ pub fn run_c11(args: &Args) -> i32 {
             "calls_failed(faults fired)": tot.failed,
             "faults_fired": {
                 "api-fail:mandatory(model demands failure)": tot.mandatory_failures,
+                "api-fail:rejected-call-repeated-at-once(must be rejected again)": tot.retries_after_failure,
                 "api-fail:type-error-rollback": tot.rollback_after_type_error,
                 "api-fail:size-limit-rollback(post type registration)": tot.rollback_after_size_limit,
                 "argument-from-sibling-graph": tot.cross_graph_args,
@@ -997,4 +1115,8 @@ pub fn replay_cmd(path: &str) -> i32 {
 #[allow(dead_code)]
 fn _u() -> (Type, Resolved) {
     (scalar_type(UINT64), Resolved::Skip)
+}
+
+fn rng_key(n: usize) -> u64 {
+    crate::rng::hash_str(&format!("battery-{}", n))
 }
